@@ -48,7 +48,7 @@ TRUSTED = [
     "backend by this run (formats, constituent arrays, hold/free/finalisation logs)",
     "tie T1 (keep-alive edges): tools/tables.d/C20.py reads with Python's `ast` which `_hold_ref` / `free_memref` loop of the nested "
     "Storage class runs under which `owns_memory` condition and pins the texts of `_hold_ref`, the conversion functions and `Array.copy`; "
-    "its reading of those statements as the four flags of SparseV.Own.Cfg is trusted (and compared with the `_hold_ref` log each run)",
+    "its reading of those statements (and of the base walk before `_hold_ref`) as the five flags of SparseV.Own.Cfg is trusted (and compared with the `_hold_ref` log each run)",
     "weak references decide 'released while a view is alive': CPython clears a weak reference exactly when the object is deallocated, "
     "a NumPy array that owns its data frees it in its deallocator, an owning Storage frees its fields in `__del__`",
     "the MLIR sparse_tensor dialect's storage semantics (pos/crd/values per level) is what `toDense` formalises; it is validated "
